@@ -46,6 +46,13 @@ def worker_init():
 # ----------------------------------------------------------------------------
 # observables
 # ----------------------------------------------------------------------------
+# distributions whose density call returns the density *of their last draw* (it uses the log
+# Jacobian stored by sample()/rsample()): a function of hidden sampling state, not of the parameter
+# values, so a freshly built copy has no value to compare with.  They are read through the
+# variational objective that draws from them and evaluates them in one call.
+LAST_DRAW_DENSITIES = ("NormalizingFlow", "RealNVP")
+
+
 def list_observables(dic):
     """(id, accessor) pairs in creation order (children before parents)."""
     from torchtree.core.abstractparameter import AbstractParameter
@@ -62,7 +69,7 @@ def list_observables(dic):
                 if callable(obj):
                     out.append((oid, "call"))
             continue
-        if isinstance(obj, CallableModel):
+        if isinstance(obj, CallableModel) and type(obj).__name__ not in LAST_DRAW_DENSITIES:
             out.append((oid, "call"))
         if isinstance(obj, Model):
             for acc in ("rates", "probabilities", "branch_lengths", "node_heights", "q", "frequencies", "precision_matrix", "p_t"):
